@@ -874,6 +874,27 @@ fn gen_raw(rng: &mut Rng, tier: Tier) -> Raw {
     } else {
         (dfile, queries)
     };
+    // near-tie stream for the float comparison of `get_closest`: two keys x^n and x^(n+1) with n = 1200 / 1500 and the
+    // query x (or xx): the normalised distances (n-1)/n and n/(n+1) differ by 1/(n(n+1)) < 10^-6 — distinct as f64 (and
+    // as rationals: the SHORTER key is strictly closer); the longer key is the more frequent one, so a comparison with
+    // a tolerance turns the strict order into a tie and returns it.  (Equality after rounding to f32 needs n >= 5800;
+    // the extracted edit-distance model counts in unary and is quadratic in n even for a one-character query: 34 s per
+    // case at n = 8192, so that size is not generated.)
+    let (dfile, queries): (Vec<u8>, Vec<(String, bool)>) = if rng.chance(1, 300) {
+        let n = *rng.pick(&[1200usize, 1500]);
+        let c = *rng.pick(&["a", "b"]);
+        let (f1, f2) = (1 + rng.below(3), 4 + rng.below(3));
+        let mut lines = vec![format!("{}\t{}", c.repeat(n), f1), format!("{}\t{}", c.repeat(n + 1), f2)];
+        if rng.chance(1, 2) {
+            lines.push("zzzz\t9".to_string());
+        }
+        rng.shuffle(&mut lines);
+        let f = lines.join("\n") + "\n";
+        let queries = vec![(c.to_string(), true), (c.repeat(2), true), (c.to_string(), false)];
+        (f.into_bytes(), queries)
+    } else {
+        (dfile, queries)
+    };
     Raw { chars, cg, max_size, max_seq, threads, files, arr, hp, dfile, queries, probes }
 }
 
@@ -1004,6 +1025,9 @@ impl Prop for C20 {
         }
         if std::str::from_utf8(&r.dfile).is_err() {
             tags.push("dfile-invalid".into());
+        }
+        if r.dfile.split(|b| *b == b'\n').any(|l| l.len() > 1100) {
+            tags.push("near-tie".into());
         }
         if !r.chars && r.max_size.map_or(false, |k| (1..=3).contains(&k)) && r.files.iter().any(|fb| fb.windows(3).any(|w| w == b"haa")) {
             tags.push("longtail".into());
